@@ -147,6 +147,45 @@ func (c *c18) DumpCase(seed uint64, idx int) []Case {
 		}
 	}
 	cs.Opts.Banned = banned
+	// (from a stream of its own, so that every other case stays as it is) text that merely spells
+	// a banned keyword - in an annotation, as a parameter - is not an occurrence of the kind
+	if r2 := newRng(splitmix(seed^0xba77ed, uint64(idx))); len(banned) > 0 && r2.chance(150) {
+		kw := directive.Enumeration(banned[r2.n(len(banned))]).String()
+		if kw == "HTTP-response-code" {
+			kw = "200"
+		}
+		q := cs.Project.clone()
+		files := sortedKeys(q.Files)
+		f := files[r2.n(len(files))]
+		lines := strings.SplitAfter(string(q.content(f)), "\n")
+		var cand []int
+		for i, ln := range lines {
+			t := strings.TrimSpace(ln)
+			for _, k := range []string{"GET", "POST", "PUT", "PATCH", "DELETE", "URL", "TAG", "SERVER", "TYPE", "ENUM", "Version", "Title"} {
+				if strings.HasPrefix(t, k+" ") && !strings.Contains(t, "//") && !strings.Contains(t, "/*") && !strings.Contains(t, "#") {
+					cand = append(cand, i)
+				}
+			}
+		}
+		if len(cand) > 0 {
+			i := cand[r2.n(len(cand))]
+			body := strings.TrimRight(lines[i], "\r\n")
+			end := lines[i][len(body):]
+			switch t := strings.TrimSpace(body); {
+			case strings.HasPrefix(t, "Version "):
+				body = body[:strings.Index(body, "Version ")] + "Version " + kw
+			case strings.HasPrefix(t, "Title "):
+				body = body[:strings.Index(body, "Title ")] + "Title \"" + kw + "\""
+			case r2.chance(500):
+				body += " //" + kw
+			default:
+				body += " // " + kw + " " + kw
+			}
+			lines[i] = body + end
+			q.set(f, []byte(strings.Join(lines, "")))
+			cs.Project = q
+		}
+	}
 	if len(cs.Project.Files) > 1 && r.chance(80) {
 		// one of the included files is a symbolic link to its text: nothing the option may care about
 		q := cs.Project.clone()
